@@ -68,7 +68,7 @@ LEVEL_NOTE = ('Trusts numpy complex arithmetic and the self-tested harmonic orac
               'identity, central differences); the l=2 repository potentials are trusted only after passing the Laplace '
               'identity in-check (their own correctness is C14). Colatitudes within 0.05 rad of the poles, liquid layers '
               '(mu = 0) and lambda + 2 mu = 0 are outside the generated domain.')
-CASES = {'quick': 1600, 'thorough': 60000}
+CASES = {'quick': 1600, 'thorough': 600000}
 SHARDS = {'quick': 8, 'thorough': 16}
 
 HOOKE_TOL = 1e-12
